@@ -134,7 +134,7 @@ def install():
     _INSTALLED["done"] = True
 
 
-def drain(timeout=3.0):
+def drain(timeout=6.0):
     """wait for abandoned worker threads of the last run so they cannot disturb the next case"""
     t0 = time.time()
     for r in PLAN.pending:
